@@ -1,6 +1,8 @@
 import Driver.C03
+import Driver.C04
 import Driver.C15
 import Driver.C16
+import Driver.Client
 /-!
 `lvdriver`: reads one case per line (tab separated, first field = operation), replays it
 through the Lean model M and the specification S, and prints one answer per line:
@@ -28,6 +30,10 @@ def dispatch (line : String) : String :=
     | "mailcmd" => C16.mailcmdOp args
     | "argv" => C16.argvOp args
     | "envcheck" => C16.envcheckOp args
+    | "client" => ClientOp.clientOp args
+    | "mailparam" => C04.mailparamOp args
+    | "ehlocmd" => C04.ehlocmdOp args
+    | "mailstd" => C04.mailstdOp args
     | _ => "BADOP"
   | [] => "BADLINE"
 
